@@ -80,6 +80,9 @@ func specs(tier string) (out []*spec) {
 	add("two", two("forkstay", "exit0"), both, bound, "kill-near;kill-far", []opSpec{k("near", "p0"), k("far", "p1")})
 	add("two", two("forkstay", "exit0"), both, bound, "kill-near||kill-far", []opSpec{k("near", "p0")}, []opSpec{k("far", "p1")})
 	add("two", two("trapterm", "sigdie"), both, bound, "shutdown", []opSpec{term("p0"), term("p1"), k("near", "p0"), k("near", "p1")})
+	// a process that exited long ago is still known after later processes were started
+	add("two", two("exit3", "forever"), nil, bound, "exec;exited;exec-other;kill;term", []opSpec{execOp("p0"), await("p0"), execOp("p1"), k("far", "p0"), term("p0"), k("far", "p1")})
+	add("two", two("sigdie", "exit0"), nil, bound, "exec;exited;exec-other;exited;term;kill", []opSpec{execOp("p0"), await("p0"), execOp("p1"), await("p1"), term("p0"), k("past", "p0"), k("far", "p1")})
 	// ---- many processes, all exiting before anybody reads the event stream: one event each, none lost ----
 	for _, n := range []int{17, 24} {
 		var ps []procSpec
